@@ -336,6 +336,9 @@ def r6_pairwise_matrix_and_inputs(ctx):
     ctx.floor("interval functions examined for writes into their arguments", n, 40)
 
 
+from ..through_time import make_rule as _mk_tt
+_through_time = _mk_tt("C08")
+
 RULES = [
     ("C08-R1", r1_merge),
     ("C08-R2", r2_sort_keys),
@@ -343,4 +346,5 @@ RULES = [
     ("C08-R4", r4_clamps),
     ("C08-R5", r5_similarity),
     ("C08-R6", r6_pairwise_matrix_and_inputs),
+    ("C08-T1", _through_time),
 ]
